@@ -277,5 +277,14 @@ def main(argv):
         ctx.count("composed-model-calls", ncalls)
         for b in bad[:5]:
             ctx.disagreement("composed Lean model PooledClient∘Client differs from the real PooledClient", b, theorem="C09_pooled_run_projection")
+    # composed model HashClient ∘ PooledClient ∘ Client (Pymc/Model/HashPooledCall.lean): every pool of a real HashClient(use_pooling=True)
+    # (per registered PooledClient: idle clients with their sockets, sockets closed in order, checked-out count) after every call
+    if ctx.lean.build_ok:
+        import hashpooledcall_diff
+        ncalls, bad = hashpooledcall_diff.differential(3000 if ctx.thorough else 400, rng, ctx.driver.batch)
+        ctx.count("composed-hashpooled-model-calls", ncalls)
+        for b in bad[:5]:
+            ctx.disagreement("composed Lean model HashClient∘PooledClient∘Client differs from the real HashClient(use_pooling=True)", b,
+                             theorem="C09_hashpooled_pool_invariants")
     ctx.assumptions = ["time is the patched pool clock (integer ticks); one call happens at one instant", "a connection = one successfully connected socket"]
     ctx.finish()
